@@ -10,4 +10,4 @@ def register(*pids):
     return deco
 
 
-from . import num, parse, machine, opt, compilec  # noqa: E402,F401
+from . import num, parse, machine, opt, compilec, tools  # noqa: E402,F401
